@@ -379,7 +379,8 @@ def do_op(ctx, sess, side, op, tag):
             elif op == "notice":
                 info["ret"] = sess.extended_response(mid, NOTICE, None, rc)
             elif op == "search_entry":
-                info["ret"] = sess.search_result_entry(mid, "cn=a", [], controls=ctl)
+                # (an attribute value of one arbitrary octet: not necessarily text)
+                info["ret"] = sess.search_result_entry(mid, "cn=a", [M.PartialAttribute("a", [ctx.bytes(f"{tag}.av", 1)])], controls=ctl)
             elif op == "search_reference":
                 info["ret"] = sess.search_result_reference(mid, ["ldap://x"])
             elif op == "search_done":
@@ -451,6 +452,8 @@ def check_step(ctx, side, pre, info, post, props, tag=""):
         req("C08", rejected, "closed-session-accepted:" + op)
         req("C08", post["state"] == "CLOSED", "closed-session-left-closed:" + op)
         req("C08", len(appended) == 0, "closed-session-produced-bytes:" + op)
+        if side == "client" and rejected and op in ("bind_simple", "bind_sasl", "search", "extended"):
+            req("C09", len(appended) == 0, "refused-request-emitted-bytes-carrying-an-id-that-was-not-handed-out")
         if op.startswith("recv") and rejected:
             req("C08", info["exc_name"] == "ProtocolError", "closed-receive-error-type")
         return
@@ -483,6 +486,9 @@ def _client(ctx, pre, info, post, appended, rejected, req, fail, props):
         must_refuse = (len(O) > 0) if is_bind else (pre["state"] == "BINDING")
         if must_refuse:
             req("C08", rejected, ("bind-started-with-operations-outstanding" if is_bind else "non-bind-request-sent-while-binding"))
+            if rejected:
+                # no id was handed out, so no bytes carrying one may have been emitted
+                req("C09", len(appended) == 0, "refused-request-emitted-bytes-carrying-an-id-that-was-not-handed-out")
             return
         if rejected:
             fail("C08", "valid-request-refused:" + op, f"{info['exc_name']}@{info['exc_site']}")
